@@ -14,19 +14,23 @@ RULE = ("scripts = one behaviour per reachable state of the bounded design model
 
 
 def model_to_script(i, ops):
-    return {"run": f"m{i}", "peers": 2, "repos": 2, "capacity": 1, "rng": 7 + i % 5,
+    return {"run": f"m{i}", "peers": 2, "repos": 2, "capacity": 1, "rng": 7 + i % 5, "persistent": [2],
             "ops": [list(op) + (["ok"] if op[0] == "done" else []) for op in ops]}
 
 
 def random_script(rng, i):
     npeers = rng.randint(2, 3)
     nrepos = rng.randint(1, 3)
+    persistent = sorted(rng.sample(range(1, npeers + 1), rng.randint(0, 2)))
     ops = []
     conn = set()
     nf = 0
     for _ in range(rng.randint(12, 45)):
         x = rng.random()
-        if x < 0.15 or not conn:
+        if persistent and x < 0.10:
+            # dial progress / reconnection timer of persistent peers
+            ops.append(rng.choice([["attempted", rng.choice(persistent)], ["wake", rng.choice([4000, 70000])]]))
+        elif x < 0.15 or not conn:
             cand = [p for p in range(1, npeers + 1) if p not in conn]
             if cand:
                 p = rng.choice(cand)
@@ -50,7 +54,8 @@ def random_script(rng, i):
                 ops.append(["done", rng.randint(1, nf), rng.choice(["ok", "ok", "err", "timeout"])])
         else:
             ops.append(["idle"])
-    return {"run": f"r{i}", "peers": npeers, "repos": nrepos, "capacity": rng.choice([1, 1, 2]), "rng": rng.randint(1, 1000), "ops": ops}
+    return {"run": f"r{i}", "peers": npeers, "repos": nrepos, "capacity": rng.choice([1, 1, 2]), "rng": rng.randint(1, 1000),
+            "persistent": persistent, "ops": ops}
 
 
 def scripted():
@@ -59,6 +64,11 @@ def scripted():
          ["connect", 1], ["fetch", 1, 2], ["done", 1, "ok"], ["fetch", 1, 1], ["done", 2, "ok"], ["idle"]]},
         {"run": "s-late-same-peer", "peers": 1, "repos": 1, "capacity": 1, "ops": [["connect", 1], ["fetch", 1, 1], ["disconnect", 1], ["connect", 1],
          ["fetch", 1, 1], ["done", 1, "ok"], ["fetch", 1, 1], ["done", 2, "ok"], ["done", 3, "ok"]]},
+        {"run": "s-queue-full", "peers": 2, "repos": 2, "capacity": 1, "ops": [["connect", 1], ["connect", 2], ["fetch", 1, 1]] + [["fetch", 2, 1] for i in range(135)]
+         + [["annfetch", 2, 1], ["done", 1, "ok"], ["idle"], ["done", 2, "ok"], ["disconnect", 1], ["connect", 1], ["fetch", 1, 1]]},
+        {"run": "s-persistent", "peers": 2, "repos": 2, "capacity": 1, "persistent": [1], "ops": [["fetch", 1, 1], ["attempted", 1], ["fetch", 1, 1], ["connect", 1],
+         ["fetch", 1, 1], ["connect", 2], ["fetch", 2, 2], ["disconnect", 1], ["fetch", 1, 1], ["fetch", 2, 1], ["wake", 70000], ["fetch", 1, 1], ["attempted", 1],
+         ["fetch", 1, 1], ["fetch", 2, 1], ["connect", 1], ["done", 1, "ok"], ["fetch", 1, 1], ["done", 2, "ok"], ["idle"], ["done", 3, "ok"]]},
         {"run": "s-queue", "peers": 2, "repos": 2, "capacity": 1, "ops": [["connect", 1], ["connect", 2], ["fetch", 1, 1], ["fetch", 2, 1], ["fetch", 1, 2],
          ["fetch", 2, 2], ["done", 1, "ok"], ["done", 2, "timeout"], ["idle"], ["done", 3, "ok"], ["done", 4, "ok"]]},
     ]
@@ -74,7 +84,7 @@ def run(ctx):
     if res.violated:
         ctx.violation(f"model:{res.violated}", "the design model violates the invariant", {"tlc": res.error_trace[:120]})
         return ctx.finish(rule=RULE)
-    ctx.require_coverage(res, ["Connect", "Disconnect", "FetchCmd", "AnnFetch", "Idle"])
+    ctx.require_coverage(res, ["Attempt", "Connect", "Disconnect", "Retry", "FetchCmd", "AnnFetch", "Idle"])
     for name, cfgd, inv in (("late-same-peer", "MCFetchSched_dev1.cfg", "C16_Attribution"), ("late-any-peer", "MCFetchSched_dev2.cfg", "C16_OneLive")):
         dev = ctx.tlc("MCFetchSched", cfgd, workers=8, timeout=900, coverage=False, count=False, heap="8g",
                       label=f"sanity: deviation {name} must violate {inv}")
